@@ -311,6 +311,19 @@ class C20(flow.Spec):
         n = 300 if tier == "quick" else 6000
         for i in range(n):
             cs.append(self.agg_case(rng, i, rng.choice([6, 12, 25, 50])))
+        # popcount(const void*, size_t): every length 0..40 at every misalignment, random / extreme bytes
+        lines = ["case popcount_buf"]
+        for ln in list(range(0, 41)) + [rng.randrange(41, 400) for _ in range(4 if tier == "quick" else 60)]:
+            for off in range(8):
+                kind = rng.randrange(4)
+                if kind == 0:
+                    bs = bytes([0xFF] * ln)
+                elif kind == 1:
+                    bs = bytes(rng.choice([0, 0x80, 1, 0xFF]) for _ in range(ln))
+                else:
+                    bs = bytes(rng.getrandbits(8) for _ in range(ln))
+                lines.append(f"pb {off} {bs.hex() or '-'}")
+        cs.append(lines)
         # all short combination scripts over two registers (empty / one value / several values)
         fills = [[], [3], [1, 2, 3], [10, 20], [-5, -5, -5, -5]]
         k = 0
@@ -330,6 +343,8 @@ class C20(flow.Spec):
         name = case[0]
         if len(case) < 2:
             return None
+        if case[1].startswith("pb"):
+            return ("pb", tuple(case[1:]))
         if case[1].startswith("agg"):
             counts = [0, 0, 0, 0]
             nonempty = empty = False
